@@ -6,7 +6,9 @@ import os
 HERE = os.path.dirname(os.path.dirname(os.path.abspath(__file__)))
 
 CLAIMS = {}
-NA = {}
+NA = {
+    "C02": "The property equates the output sample stream of every core-language program with an independent call-by-value definition of the semantics; that is a statement about computed values over all programs and run lengths, which no static argument in reach of this machinery bounds (it would need a second, trusted semantics and an equivalence proof of two evaluators). The structural ingredients that are visible in the shape of the code are decided under the properties that own them and are not claimed again here: per-call-site state cells and their offsets (C05.states-flow, C05.branch-accounting, C05.order, C05.site-table), literal fidelity and operator agreement (C01.bounds, C01.ops), delay/mem primitives (C01.prims). See DESIGN.md section 5.",
+}
 
 
 def claim(pid, category, text, note, technique, design):
